@@ -65,7 +65,7 @@ FLAGS = {
                 cflags=["-O1", "-g", "-fPIC", "-w", "-fno-strict-aliasing",
                         "-fsanitize=address,undefined",
                         "-fno-omit-frame-pointer", "-shared-libasan",
-                        "-fsanitize-recover=all"],
+                        "-fsanitize-recover=all", "-fno-sanitize=alignment"],
                 ldflags=["-shared", "-fsanitize=address,undefined",
                          "-shared-libasan"]),
 }
